@@ -2,6 +2,7 @@ import TbotVerif.Props.CtxExec
 import TbotVerif.Props.CtxLeak6
 import TbotVerif.Props.CtxTrace4
 import TbotVerif.Props.CtxTrace5
+import TbotVerif.Props.CtxOrder
 set_option linter.unusedSimpArgs false
 set_option linter.unusedVariables false
 /-! # C14 — the context never has two live instances of a machine and never leaks one
@@ -141,6 +142,40 @@ theorem I5 (cs : Case) (hwf : cs.wf = true) : specI5 (run cs).reverse = true := 
   unfold runSt
   simp only [St.log, always_cons, condLeave, Bool.true_and]
   exact this.2.good
+
+/-- **I6 (state form)** — in the final state (and, by the same invariant `InvOrd`, in every state
+    the program goes through) `_teardown_order` lists every class after all the classes its
+    `from_context` requests; and an alive class has all its prerequisites in the order.  Since
+    `Context.__exit__` walks the order in reverse, dependants are visited first. -/
+theorem I6_order (cs : Case) (hwf : cs.cfg.wf = true) :
+    ∀ l1 c l2, (runSt cs).order = l1 ++ c :: l2 → ∀ d ∈ cs.cfg.depsOf c, d.1 ∈ l1 := by
+  have h0 : InvOrd cs.cfg (initSt cs.ka cs.roe) := by
+    constructor
+    · intro c hc; simp [initSt] at hc
+    · intro l1 c l2 h; simp [initSt] at h
+  have := execBlock_O cs.cfg (depsBelow_of_wf hwf) cs.prog _ (inv_init cs.ka cs.roe) h0
+  exact this.before
+
+/-- **C14, the part of `Spec.C14` that is proved** — I1 ∧ I2 ∧ I3 ∧ I4 ∧ I5 of the specification hold
+    on the model's log for every well-formed case (program, dependency graph, flags, fault oracle).
+
+    The full statement is
+
+        theorem spec (cs : Case) (hwf : cs.wf = true) : Spec.C14 cs (run cs) = true
+
+    and what is missing for it is only the *observable* form of I6 (`specI6`: during the outermost
+    `__exit__`, as long as no teardown has failed and for dependency graphs with `exclUnique`, a
+    machine goes down only when no machine built from its class is up).  I6 is proved in its state
+    form (`I6_order`: the teardown order respects the dependency graph); deriving the statement
+    about the order of the `down` events inside the exit window additionally needs (a) that an
+    exception in flight inside the window implies a logged fault and (b) a link between the flags
+    of the frames held by a generator and `cfg.deps` — neither is proved.  The correspondence
+    check evaluates the full `Spec.C14`, including `specI6`, on every implementation run. -/
+theorem spec_partial (cs : Case) (hwf : cs.wf = true) :
+    (specI1 (run cs).reverse && specI2 (run cs).reverse && specI3 (run cs).reverse &&
+      specI4 cs (run cs).reverse && specI5 (run cs).reverse) = true := by
+  have hc := (wf_parts hwf).1
+  simp [I1 cs hc, I2 cs hwf, I3 cs hc, I4 cs hc, I5 cs hwf]
 
 /-! ### non-vacuity -/
 
